@@ -159,13 +159,20 @@ def _sorted_edges(fi, res: Result, R: str, param: str) -> None:
 
 def _idiom_filter(fi, res: Result, R: str) -> None:
     """A': pop the head of the sorted edge list, then re-bind the list to the edges sharing neither row nor column."""
-    pops = [c for c in astq.method_calls(fi.node, "pop")]
-    E = pops[0].func.value.id
     param = fi.node.args.args[0].arg
-    st = enclosing_stmt(pops[0])
-    rc = [norm(e) for e in st.targets[0].elts] if isinstance(st, ast.Assign) and isinstance(st.targets[0], ast.Tuple) else []
-    ok = len(pops) == 1 and len(pops[0].args) == 1 and astq.const_value(pops[0].args[0]) == 0 and len(rc) == 2
-    res.ob(R, ok, fi.qualname, "lowest-cost edge taken first", "the next edge is not popped from the head of the sorted edge list", fi.where)
+    # the head of the sorted edge list: `r, c = E.pop(0)` or `r, c = E[0]` (then the filter below also drops the head)
+    st = None
+    E = None
+    for s_ in walk_function(fi.node):
+        if isinstance(s_, ast.Assign) and isinstance(s_.targets[0], ast.Tuple) and len(s_.targets[0].elts) == 2:
+            v = s_.value
+            if isinstance(v, ast.Call) and isinstance(v.func, ast.Attribute) and v.func.attr == "pop" and isinstance(v.func.value, ast.Name) and len(v.args) == 1 and astq.const_value(v.args[0]) == 0:
+                st, E = s_, v.func.value.id
+            elif isinstance(v, ast.Subscript) and isinstance(v.value, ast.Name) and astq.const_value(v.slice) == 0 and astq.enclosing_loops(s_):
+                st, E = s_, v.value.id
+    rc = [norm(e) for e in st.targets[0].elts] if st is not None else []
+    ok = st is not None and len(rc) == 2
+    res.ob(R, ok, fi.qualname, "lowest-cost edge taken first", "the next edge is not taken from the head of the sorted edge list", fi.where)
     if not ok:
         return
     loop = (astq.enclosing_loops(st) or [None])[0]
@@ -271,7 +278,7 @@ def check_greedy(prog: Program, res: Result, R: str) -> None:
         _idiom_b(fi, res, R, argmins)
     elif pops and dels:
         _idiom_a(fi, res, R)
-    elif pops and not dels and isinstance(pops[0].func.value, ast.Name):
+    elif not dels and not adds and any(isinstance(s_, ast.Assign) and isinstance(s_.value, ast.ListComp) and astq.enclosing_loops(s_) for s_ in walk_function(fi.node)):
         _idiom_filter(fi, res, R)
     elif adds and not pops:
         _idiom_used_sets(fi, res, R)
